@@ -12,8 +12,9 @@ use std::path::Path;
 // "x.txt": a target whose path is a single regular file, not a directory
 // "cafe\u{301}": the decomposed spelling (combining accent), "z\u{200d}w": a zero-width joiner inside the name
 pub const DIRS: [&str; 15] = ["a", "ab", "a/c", "a/cd", "a/c/e", "b", "a/c/e/g", "abc", "caf\u{e9}", "caf\u{e9}s", "a-b", "a.c", "x.txt", "cafe\u{301}", "z\u{200d}w"];
-pub const EXTRA: [&str; 12] = [
-    "lib", "lib2", "lib/x", "a/f", "a/c/f", "a/c/gen", "ab/f", "b/f", "a/c/e/h", "li", "caf\u{e9}/f", "caf",
+// "a/", "a/c/": a directory named with a trailing separator (as shell completion leaves it) is that directory
+pub const EXTRA: [&str; 14] = [
+    "lib", "lib2", "lib/x", "a/f", "a/c/f", "a/c/gen", "ab/f", "b/f", "a/c/e/h", "li", "caf\u{e9}/f", "caf", "a/", "a/c/",
 ];
 
 pub fn setup(root: &Path) {
